@@ -5,7 +5,7 @@ d=/verif/seeded/$1; shift
 git -C /repo apply "$d/patch.diff" || { echo "patch does not apply"; exit 2; }
 for p in "$@"; do
   out=$(cd /verif && timeout 3000 ./check $p --tier quick 2>&1); rc=$?
-  echo "== $p rc=$rc"; echo "$out" | grep -E 'VIOLATION|KNOWN-FINDING|TOOL-ERROR|MODEL-MISMATCH|DRIFT' | cut -c1-220 | head -8
+  echo "== $p rc=$rc"; echo "$out" | grep -E "VIOLATION|TOOL-ERROR|MODEL-MISMATCH|DRIFT" | cut -c1-220 | head -8; echo "$out" | grep -c KNOWN-FINDING
 done
 git -C /repo checkout -- .
 git -C /repo status --short | head -3
